@@ -29,7 +29,10 @@ def canon_enc(items, env):
     st, orders = [], []
     for it in items:
         k = it["k"]
-        if k == "chunk":
+        if k == "chunk" and it.get("fill"):
+            st.append(("fill", 0, str(it["n"])))
+            orders.append((it["n"], it["order"], True))
+        elif k == "chunk":
             st.append(("chunk", it["n"], canon_bits(it["bits"])))
             orders.append((it["n"], it["order"], bool(it.get("fill"))))
         elif k == "array":
@@ -60,7 +63,7 @@ def canon_dec(items):
         k = it["k"]
         if k == "chunk":
             st.append(("chunk", it["n"], canon_bits(it.get("bits", []))))
-            orders.append((it["n"], it["order"], bool(it.get("skipped"))))
+            orders.append((it["n"], it["order"], bool(it.get("skipped")) or all(b == ("ignored",) for b in it.get("bits", []))))
         elif k == "array":
             el = dict(it["elem"])
             o = el.pop("order", None)
